@@ -163,6 +163,33 @@ def coq_build(targets, timeout=1500):
         return rc == 0, out + out2
 
 
+class Slot:
+    """machine-wide semaphore (flock on one of N slot files) bounding the number of concurrent case-evaluating
+    coqc processes over ALL checks running on this machine (each needs 0.5-1 GB)."""
+    N = int(os.environ.get("VERIF_COQC_SLOTS", "20"))
+
+    def __enter__(self):
+        import random
+        d = os.path.join("/tmp", "verif-coqc-slots")
+        os.makedirs(d, exist_ok=True)
+        while True:
+            order = list(range(self.N))
+            random.shuffle(order)
+            for i in order:
+                f = open(os.path.join(d, "slot%d" % i), "w")
+                try:
+                    fcntl.flock(f, fcntl.LOCK_EX | fcntl.LOCK_NB)
+                    self.f = f
+                    return self
+                except OSError:
+                    f.close()
+            time.sleep(0.25)
+
+    def __exit__(self, *a):
+        fcntl.flock(self.f, fcntl.LOCK_UN)
+        self.f.close()
+
+
 def coqc_file(path, timeout=900, cwd=None):
     return sh(["coqc", "-R", os.path.join(COQ, "theories"), "PF", "-R", os.path.join(COQ, "gen"), "PFGen",
                "-w", "-notation-overridden", path], cwd=cwd or os.path.dirname(path), timeout=timeout)
@@ -231,7 +258,8 @@ def eval_cases(outdir, timeout=1200):
     bad_corr, bad_prop, logs, ok = [], [], [], True
 
     def one(path):
-        return path, coqc_file(path, timeout=timeout)
+        with Slot():
+            return path, coqc_file(path, timeout=timeout)
 
     with cf.ThreadPoolExecutor(max_workers=16) as ex:
         for path, (rc, out) in ex.map(one, shards):
